@@ -317,6 +317,30 @@ theorem xenMapScan_balanced_fresh (cfg : Cfg) (entsz : Nat) (addOk : Nat → Boo
   | err s => rw [hr] at h; simpa [scanLeft, fbRes] using h
   | stuck => rw [hr] at h; simpa [scanLeft, fbRes] using h
 
+/-! ## SADUMP probe: the magic-number scan -/
+
+/-- `verify_magic_number`: whatever the file holds (`cont`), wherever it ends (the next
+entry cannot be fetched, or holds fewer than four bytes), whichever access path is used and
+whichever fetch fails, every file-cache entry obtained has been given back exactly once when
+the function returns: nothing is held afterwards, nothing is given back twice (the run of
+the events is defined on the ledger). -/
+theorem verifyMagic_balanced (cfg : Cfg) (fidx : Nat) (cont : Nat → Bool) (fuel : Nat) (pol : Policy) (pos : Nat)
+    (orc : List Ext) (L : List Res) :
+    Runs (verifyMagic cfg fidx cont fuel pol pos orc).evs L L :=
+  verifyMagic_runs cfg fidx cont fuel pol pos orc L
+
+/-- the loop alone, entered with entry `f` held: it ends with nothing held on every outcome
+(`stuck`: the oracle does not fit; nothing has happened then and `f` is still held) -/
+theorem magicLoop_balanced (cfg : Cfg) (fidx : Nat) (cont : Nat → Bool) (fuel k : Nat) (pol : Policy) (pos : Nat)
+    (f : Fce) (left : Nat) (orc : List Ext) (L : List Res)
+    (hns : (magicLoop cfg fidx cont fuel k pol pos f left orc).res ≠ .stuck) :
+    Runs (magicLoop cfg fidx cont fuel k pol pos f left orc).evs (Res.pin f.c f.key :: L) L := by
+  have h := magicLoop_runs cfg fidx cont fuel k pol pos f left orc L
+  cases hr : (magicLoop cfg fidx cont fuel k pol pos f left orc).res with
+  | ok p => rw [hr] at h; simpa [scanLeft, pinOf] using h
+  | err s => rw [hr] at h; simpa [scanLeft, pinOf] using h
+  | stuck => exact absurd hr hns
+
 /-! ## libaddrxlat's read cache and the callback records -/
 
 /-- `get_cache_buf`: reuse, eviction, successful or failing fetch — afterwards the
@@ -498,6 +522,17 @@ example : runEvs [.acq .fb 0, .acq .fb 0, .put .fb 0, .acq .fb 4096, .pread 4096
 example : runEvs (xenMapScan cfg0 16 (fun _ => true) 3 0 .never 4072 ⟨none, 0⟩
     [.entHit (some 1000), .entHit (some 1000), .entHit (some 1000), .entHit (some 3000), .entHit (some 3000)]).evs [] = some [] := by
   decide
+
+/-- a file that ends on a cache-entry boundary while the magic sequence still continues
+(16-byte entries, 16-byte file, first magic number at 8): the held entry is released, the
+fetch of the next entry fails with EOF, and nothing is released a second time -/
+example : (verifyMagic ⟨16, 4194304, 16, 32, 104, 2, 4096, 16, false, false, true, true⟩ 0 (fun _ => true) 100 .never 8
+    [.entHit (some 1000)]).evs = [.acq .fb 0, .put .fb 0] := by decide
+example : (match (verifyMagic ⟨16, 4194304, 16, 32, 104, 2, 4096, 16, false, false, true, true⟩ 0 (fun _ => true) 100 .never 8
+    [.entHit (some 1000)]).res with | .err .eof => true | _ => false) = true := by decide
+/-- the sequence ends in the second entry: both entries released once -/
+example : runEvs (verifyMagic ⟨16, 4194304, 64, 32, 104, 2, 4096, 16, false, false, true, true⟩ 0 (fun k => k < 3) 100 .never 8
+    [.entHit (some 1000), .entMiss 2000, .io true]).evs [] = some [] := by decide
 
 /-- why `xenMapScan_balanced` needs `hns`: an entry is held, a record has to be
 fetched, and the oracle has no answer left — the model is `stuck` with an empty
